@@ -91,7 +91,7 @@ def reg(pid, level, rules, explanation):
 
 reg("C01", "other",
     [T.t_bij, P.t_prop3, L.l_eq, B.l_cover, P.l_propdec, D.h_dispatch3, T.t_varint_readers, PL.s_persist, PL.h_total,
-     B.t_bits, C.h_payfmt, L.t_ctl, P3.h_shortform, TR.l_trace, P3.t_prims, T.t_proto],
+     B.t_bits, C.h_payfmt, L.t_ctl, P3.h_shortform, TR.l_trace, P3.t_prims, T.t_proto, P.h_bytevals],
     "NOT decided: equality of the decoded value with the original over the unbounded value space (a runtime quantity). Decided: structural necessary conditions of a round trip, each exact for what it compares: "
     "T-bij (every wire-code enum's `as u8` discriminant table and its from_u8 table, evaluated for all 256 bytes, are inverse "
     "bijections), T-prop3 (decode / encode / encode_len of every v5 property set handle the same ids wired to the same field), L-eq "
@@ -104,7 +104,7 @@ reg("C01", "other",
     "every body put the same kinds of wire items in the same order and a field is read at the position at which it is written).")
 
 reg("C02", "other",
-    [L.l_eq, L.l_hdr, L.l_fixed, L.s_dbg, PN.s_panic_encode, T.t_width, T.t_varint_writer, P3.t_prims],
+    [L.l_eq, L.l_hdr, L.l_fixed, L.s_dbg, PN.s_panic_encode, T.t_width, T.t_varint_writer, P3.t_prims, IO.h_async1, IO.s_writers],
     "Decided exactly (all inputs of the valid domain): L-eq for each of the 35 `impl Encodable` (bytes written by encode == "
     "encode_len as multilinear polynomials over field-presence/variant atoms, i.e. for every subset of optional fields and "
     "properties, every reason code, any number of list elements); L-hdr (encode_packet = control byte, var-int of exactly "
@@ -189,7 +189,7 @@ reg("C09", "other",
     "encode closure reads no static/thread-local/interior-mutable state and calls nothing environment dependent (S-pure).")
 
 reg("C10", "other",
-    [T.t_rc, L.t_ctl, P.t_propid, B.t_bits, T.t_varint_writer, T.t_proto, L.l_hdr, L.l_eq, P.t_prop3, TR.l_trace, P3.t_prims],
+    [T.t_rc, L.t_ctl, P.t_propid, B.t_bits, T.t_varint_writer, T.t_proto, L.l_hdr, L.l_eq, P.t_prop3, TR.l_trace, P3.t_prims, IO.h_async1, IO.s_writers],
     "Static analysis cannot run an independent decoder; decided instead: every constant the encoder puts on the wire equals the "
     "independently typed OASIS tables (spec_mqtt.py): control bytes incl. PUBLISH flag bits for all 12 flag combinations (T-ctl), all "
     "138 wire-code enum discriminants (T-rc), property ids, their wire types and the id-then-value order, length prefix = sum of "
@@ -200,7 +200,7 @@ reg("C10", "other",
 
 reg("C11", "other",
     [L.l_eq, B.l_cover, T.t_bij, PN.s_panic_encode, T.t_width, C.h_ctor, P.l_propdec, P.h_proplen, B.t_bits, L.t_ctl, P3.h_shortform,
-     TR.l_trace, P3.t_prims, T.t_proto, P.t_prop3],
+     TR.l_trace, P3.t_prims, T.t_proto, P.t_prop3, P.h_bytevals, IO.h_async1, IO.s_writers],
     "NOT decided: the runtime round trip over accepted byte strings. Decided (necessary): the encoder is length-exact on every "
     "value a decoder can construct, not only canonical ones (L-eq quantifies over all atom assignments); every length-bearing "
     "field is written whenever present, depending only on itself (L-cover); every enum value a from_u8 table returns is written "
@@ -219,7 +219,7 @@ reg("C12", "proof",
     "len_utf8); that the index is the right '/' is C16 territory and not decided.")
 
 reg("C13", "proof",
-    [T.t_proto, C.s_gate, C.h_protoread],
+    [T.t_proto, C.s_gate, C.h_protoread, T.t_hdr],
     "All obligations exact: Protocol::new matches its raw arguments against exactly (MQIsdp,3) (MQTT,4) (MQTT,5), the default arm "
     "only returns InvalidProtocol(name, level) / InvalidString, to_pair is the inverse (T-proto); Protocol::decode_async reads "
     "exactly name then level (H-protoread); both decode_with_protocol start with the version gate returning "
